@@ -1,13 +1,14 @@
-"""C11 — pretty errors: the no-panic clause only.
+"""C11 — pretty errors: the no-panic clause, and (c11sem.py) the line / column / caret clauses on semantic summaries.
 
 found : in the code that turns a ParseError into its pretty form, no `unwrap`/`expect` is applied to the result of a
         search or an iteration (find / position / next / nth / max / min / last / first / get) unless the None case is
         excluded by a dominating test.
-NOT decided (and not claimed): which line, which column, where the caret goes - arithmetic over runtime values.
+iter / line / col / show : see c11sem.py - decided when the printer has the shape "line-record iterator + find + column search +
+        one format call"; reported as *undecided* (never as an alarm) for any other shape.
 """
 from .. import mir
 from ..mir import short, last, strip, walk, norm, is_call
-from . import c04
+from . import c04, c11sem
 
 LEVEL = "other"
 
@@ -16,13 +17,21 @@ SEARCHES = ("find", "find_map", "position", "rposition", "next", "next_back", "n
 
 def run(cx, chk):
     chk.explanation = (
-        "Only the 'never panics' clause of C11 is decided, by a narrow semantic rule over PrettyParseError::from_parse_error, the "
-        "line iterator and Display: no unwrap/expect on the result of a search or iteration whose emptiness is not excluded by a "
-        "dominating test, and no other explicit panic. Line number, column and caret placement are arithmetic over runtime values "
-        "(texts x positions); no sound static argument in reach decides them and they are not claimed.")
-    chk.assumptions = ["slice indexing / subtraction inside the line iterator is not part of the rule (a full panic inventory would fire on any correct rewrite of the arithmetic)"]
+        "C11.found: no unwrap/expect on the result of a search or iteration whose emptiness is not excluded by a dominating test, and "
+        "no other explicit panic, in PrettyParseError::from_parse_error, the line iterator and Display.  C11.iter / line / col / show: "
+        "the printer is read off its semantic summaries as line-record iterator + choice of the record + column + one format call, and "
+        "each piece is compared with what C11 needs (records are the half-open, contiguous ranges [line start, next line start) with "
+        "0-based counter; the first record with start <= p < end is chosen; the column is the number of characters before p in that "
+        "line, at the end of the line all of them; line and column are shown 1-based and the caret is right-aligned in a field of "
+        "width column, directly below the text after the same prefix).  A printer of another shape (hand-written loops, other "
+        "searches) is reported as undecided in the evidence, never as a violation.")
+    chk.assumptions = ["slice indexing / subtraction inside the line iterator is not part of the no-panic rule (a full panic inventory would fire on any correct rewrite of the arithmetic)",
+                       "std semantics assumed: Iterator::find returns the first match, position the first index, char_indices yields the byte index of every character, "
+                       "format width / alignment as documented (template decoded per library/core/src/fmt/mod.rs of the pinned toolchain)",
+                       "terminal column = character count (tabs and wide characters are not modelled by C11 either)"]
     rt = cx.runtime
     n = 0
+    sem_info = c11sem.run(cx, chk, rt) or {}
     fns = [p for p, f in rt.fns.items() if "mir" in f and ("PrettyParseError" in p or "IndexedStringLine" in p) and "fmt::Debug" not in p and "Clone" not in short(p)]
     if not any("from_parse_error" in p for p in fns):
         chk.anchor_missing("C11.found", "PrettyParseError::from_parse_error")
@@ -40,7 +49,12 @@ def run(cx, chk):
                 guarded = any(v is True and is_call(e, "is_some", "is_ok") for (e, v, d) in b.atoms(i)) or \
                     any(v is False and is_call(e, "is_none", "is_empty", "is_err") for (e, v, d) in b.atoms(i))
                 tag = "%s %s(%s)" % (c04.fn_key(p), l, short(searched[0][1]) if searched else "?")
-                if searched and not guarded:
+                total = (sem_info.get("find_total") and searched and last(searched[0][1]) == "find" and "from_parse_error" in p
+                         and sum(1 for s_ in walk(src) if s_[0] == "call" and last(s_[1]) in SEARCHES) == 1)
+                if total:
+                    chk.ok("C11.found", tag, {"fn": c04.fn_key(p), "call": l, "why": "the line iterator yields a record up to len + 1 and the predicate accepts "
+                                              "start <= p < end: a record is found for every position 0..=len (C11.iter / C11.line)"})
+                elif searched and not guarded:
                     chk.violation("C11.found", tag,
                                   "%s applies %s() to the result of %s without handling the not-found case: converting an error to its pretty "
                                   "form panics when nothing is found (e.g. the empty text has no line at all)" % (c04.fn_key(p), l, short(searched[0][1])),
